@@ -348,8 +348,8 @@ def pred_sync(arg, out):
                 return "truncated reply accepted"
             if out[0].name == "OutOfFuel":
                 return "connection closed mid-PDU: the client keeps reading (read budget exceeded) instead of raising"
-            if out[0].name not in ("EOFError", "IncompleteRead"):
-                return f"connection closed mid-PDU: client raised {out[0].name} instead of an end-of-stream error"
+            # the property asks for "an error, promptly": the class is not prescribed (the model's EOFError / IncompleteRead are what
+            # the source raises today; another class shows up as a model/implementation disagreement, not as a failing input)
             return None
     return None
 
